@@ -19,7 +19,7 @@ CFG = {
  # two harness builds; the operations that reach PathToIndex (Decode, Decode/roundtrip, Decode/reencode, AllPaths/index) also run in
  # the -tags debug build (github.com/openacid/must active): a contract panic is observed as P and rejected by the specification
  'runs': [{'tags': 'verif'}, {'tags': 'verif debug'}],
- 'rule': 'sessions early in the run (calls on S and S<<k, every partial S < 2^7, k 1..4, one process); one Decode call on height 16 (sparse bitmap; the slowest case, re-run by ./check under GOMAXPROCS 3/33/97); held variants first (two calls, then both results are read; heights 0..9 ascending). AllPaths: every level mask T < 2^4 (thorough 2^6) x every (from,to) drawn from {every stored path word, +1, -1, 0, 2^64-1} '
+ 'rule': 'first: for every T < 2^7 (+40 taller) a session of the first calls of the process on T (AllPaths(T,0,last leaf / +-1 / 0), whole range, Decode); sessions early in the run (calls on S and S<<k, every partial S < 2^7, k 1..4, one process); one Decode call on height 16 (sparse bitmap; the slowest case, re-run by ./check under GOMAXPROCS 3/33/97); held variants first (two calls, then both results are read; heights 0..9 ascending). AllPaths: every level mask T < 2^4 (thorough 2^6) x every (from,to) drawn from {every stored path word, +1, -1, 0, 2^64-1} '
          '(quick: T in [2^4,2^6) with every candidate as from / as to / as both plus 4 random partners); random heights 0..30 '
          '(30 forced in 1/8) with full / leaf-only / sparse / dense / full-minus-one / leaf-plus-one / random masks and windows of at '
          'most 2^12 search values placed at 0, at the end, around search values with many trailing zeros, at 2^k and 2^k-1; from/to = '
@@ -35,7 +35,7 @@ CFG = {
                  'the correspondence only runs windows of <= 2^13 search values and Decode on heights <= 17 (the output is 2^h words otherwise); both sides refuse anything larger',
                  'Decode/roundtrip: S is a sub-list of the stored nodes in pre-order',
                  'PathsOf/decode: keys in Go string order sharing their first from bits, every path length a stored level of T'],
- 'trusted': ['checker for AllPaths on heights > 10 is the pruned enumeration win_nodes (Spec/AllPathsSpec.v); it is PROVED equal to the '
+ 'trusted': ['on heights > 10 the Decode side (model and checker) is evaluated by the linear-time fast_decode, PROVED equal to the model of both builds and to the specification (C04_decode_fast, C04_checker_decode)', 'checker for AllPaths on heights > 10 is the pruned enumeration win_nodes (Spec/AllPathsSpec.v); it is PROVED equal to the '
              'plain filter of the enumerated pre-order (Properties/C04.v: C04_checker), so nothing is trusted here beyond the common base',
              'the AllPaths/index and Decode/reencode checkers evaluate the right-hand sides of C04_index_run / C04_decode_reencode'],
  'explanation': 'Theorems over the model (AllPaths with its outer loop over search values, trailing-zero level walk, from-skip and '
